@@ -71,6 +71,10 @@ ASSIGN = progcheck.Family(PID, "assign", "assign-run", "h_assign", ["h_assign.cp
 
 def run(tier, seed, replay=None):
     res = core.Result(PID, tier, seed, level="proof")
+    if not replay:
+        from . import receivers
+        res.coverage["receiver_probe_operations"] = len(receivers.C19_OPS)
+        res.coverage["receiver_probe_failing"] = [op for op, _ in receivers.report(res, PID, receivers.C19_OPS, "const arrays, const-qualified and temporary views")]
     coq = VIEWS.prepare(res)
     if coq is None:
         return res.finish()
